@@ -1025,11 +1025,6 @@ def _mask(sig, num_args, hide_args, hide_kwargs,
                 raise ValueError(
                     'Signature cannot be passed {0} arguments: {1}'
                     .format(num_args, sig))
-    if hide_args:
-        consumed_names.update(p.name for p in posargs)
-        consumed_names.update(p.name for p in pokargs)
-        posargs = []
-        pokargs = []
 
     _remove_from_src(src, consumed_names)
 
@@ -1079,6 +1074,12 @@ def _mask(sig, num_args, hide_args, hide_kwargs,
                 default=named_args[kwarg_name])
             src[kwarg_name] = [partial_obj]
         consumed_names.add(kwarg_name)
+
+    if hide_args:
+        _remove_from_src(src, _pnames(posargs))
+        _remove_from_src(src, _pnames(pokargs))
+        posargs = []
+        pokargs = []
 
     if hide_kwargs:
         _remove_from_src(src, _pnames(pokargs))
